@@ -12,8 +12,14 @@ macro_rules! dispatch {
             "C01" => $f::<c01::C01>($($arg),*),
             "C02" => $f::<c02::C02>($($arg),*),
             "C03" => $f::<c03::C03>($($arg),*),
+            "C07" => $f::<c07::C07>($($arg),*),
+            "C08" => $f::<c08::C08>($($arg),*),
             "C09" => $f::<c09::C09>($($arg),*),
+            "C15" => $f::<c15::C15>($($arg),*),
+            "C10" => $f::<c10::C10>($($arg),*),
             "C11" => $f::<c11::C11>($($arg),*),
+            "C12" => $f::<c12::C12>($($arg),*),
+            "C13" => $f::<c13::C13>($($arg),*),
             _ => {
                 eprintln!("unknown property {}", $id);
                 2
